@@ -332,6 +332,8 @@ class Translator:
         return self.seq(out)
 
 
+# local names that always hold Python / numpy scalars or immutable objects (augmented assignment rebinds them)
+SCALAR_NAMES = {'unit', 'phi', 'radius', 'angle', 'sma', 'step'}
 SCALAR_CALLS = {'len', 'int', 'float', 'round', 'max', 'min', 'sum', 'abs', 'bool', 'str', 'range', 'enumerate', 'py2intround', 'ceil', 'floor',
                 'sqrt', 'count_nonzero', 'prod', 'median', 'mean', 'nanmedian', 'nanmean', 'time', 'index', 'hypot', 'log', 'log10', 'exp'}
 
@@ -356,6 +358,8 @@ def arrayish_names(fn):
         elif isinstance(n, (ast.For,)):
             note(n.target, None)
 
+    visiting = set()
+
     def scalar(v):
         if v is None:
             return False
@@ -374,10 +378,18 @@ def arrayish_names(fn):
         if isinstance(v, ast.Subscript):
             return isinstance(v.value, ast.Attribute) and v.value.attr in ('shape',)
         if isinstance(v, ast.Name):
-            return v.id in binds and v.id not in params and all(scalar(x) for x in binds[v.id])
+            if v.id in visiting:
+                return True                                  # x = x + 1: decided by the other bindings of x
+            if v.id not in binds or v.id in params:
+                return False
+            visiting.add(v.id)
+            try:
+                return all(scalar(x) for x in binds[v.id])
+            finally:
+                visiting.discard(v.id)
         return False
     params = set(params_of(fn))
-    return {nm for nm, vs in binds.items() if nm not in params and vs and all(scalar(v) for v in vs)} | {'unit'}
+    return {nm for nm, vs in binds.items() if nm not in params and vs and all(scalar(v) for v in vs)} | SCALAR_NAMES
 
 
 def params_of(fn):
